@@ -90,11 +90,11 @@ type ImmutableSpec struct {
 
 type Config struct {
 	Immutable    []ImmutableSpec `json:"immutable"`
-	Packages     []string      `json:"packages"`
-	ReaderRoots  []RootSpec    `json:"reader_roots"`
-	Guards       []GuardSpec   `json:"guards"`
-	GlobalRefsOK []GlobalRefOK `json:"global_refs_ok"`
-	Allow        []AllowSpec   `json:"allow"`
+	Packages     []string        `json:"packages"`
+	ReaderRoots  []RootSpec      `json:"reader_roots"`
+	Guards       []GuardSpec     `json:"guards"`
+	GlobalRefsOK []GlobalRefOK   `json:"global_refs_ok"`
+	Allow        []AllowSpec     `json:"allow"`
 }
 
 const fresh = "~"
